@@ -164,10 +164,9 @@ def tab_tables():
     for s in SIDES:
         side = Side(s, verts)
         q = [v.index for v in side.vertices]
-        desc = side.description
-        m = re.match(r"^\((\d+) (\d+) (\d+) (\d+)\)$", desc)
-        if not m or [int(x) for x in m.groups()] != q:
-            raise GenError("Side.description %r does not list Side.vertices %r" % (desc, q))
+        desc = lex(side.description)
+        if desc != [("LP",)] + [("N", Fraction(i)) for i in q] + [("RP",)]:
+            raise GenError("Side.description %r does not list Side.vertices %r" % (side.description, q))
         t["side_quad"].append((s, q))
     # which sides' patches meet at a corner
     t["corner_sides"] = []
@@ -1220,7 +1219,13 @@ class C06(Prop):
         "projected_to) read before assembly; plain operations through the calls the program made",
         "program correspondence is sampled (random programs), not exhaustive",
     ]
-    partial = []
+    partial = [
+        "C06_sections_exact_partial: proved for every mesh - hex entries are the non-deleted operations in order with zone "
+        "and counts and eight indexes each; merged pairs, default patch, settings and header verbatim. Not proved (only "
+        "validated by the program correspondence and the direct oracle): the completeness/exactness clauses of "
+        "C06_sections_exact_stmt for patches, patch types/settings, projected faces and geometry",
+        "C06_roundtrip: the edges section is rendered empty and skipped by the parser (its content is C07's)",
+    ]
 
     def generate(self, ctx):
         t = tab_tables()
@@ -1234,8 +1239,8 @@ class C06(Prop):
                     "built-in shapes; the lexed file is parsed and compared with the model's file inside Coq, checked for "
                     "well-formedness against the reference hexahedron, VTK compared; non-trivial = at least one patch or "
                     "projection and the file longer than 150 tokens; distinct by program")
-        n = ctx.n(120, 5000)
-        nshape = ctx.n(12, 300)
+        n = ctx.n(120, 1500)
+        nshape = ctx.n(12, 100)
         progs = list(systematic_programs())
         kinds = ["hemisphere", "hemisphere_copy", "cylinder", "ring", "box", "two_spheres"]
         for i in range(nshape):
@@ -1259,7 +1264,9 @@ class C06(Prop):
         if len(cases) < target // 2:
             res.error = "too many programs discarded (%d of %d)" % (discarded, tries)
             return res
-        shards = [[] for _ in range(16)]
+        nsh = max(16, (len(cases) + 24) // 25)
+        shards = [[] for _ in range(nsh)]
+        oracle_failed = set()
         for k, (prog, obs) in enumerate(cases):
             res.evaluations += 1
             toks = lex(obs["file"])
@@ -1279,8 +1286,9 @@ class C06(Prop):
             bad = oracle(prog, obs)
             if bad:
                 res.oracle_failures.append(failure_replay(prog, bad))
+                oracle_failed.add(k)
             try:
-                shards[k % 16].append(coq_case(k, prog, obs, toks))
+                shards[k % nsh].append(coq_case(k, prog, obs, toks))
             except GenError as e:
                 res.error = "case %d cannot be handed to Coq: %s" % (k, e)
                 return res
@@ -1291,6 +1299,13 @@ class C06(Prop):
                 res.error = "case file %s failed to compile: %s" % (name, se[-800:])
                 return res
             for (k, codes) in parse_results(so):
+                if k in oracle_failed:
+                    # the well-formedness conditions (21..24) are the property itself, evaluated in Coq on the parsed
+                    # file: where the direct oracle reports the same input, that replay is the finding, not a
+                    # disagreement between model and implementation
+                    codes = [c for c in codes if not 21 <= c <= 24]
+                    if not codes:
+                        continue
                 res.mismatches.append(dict(case=k, disagreement=[CODES.get(c, str(c)) for c in codes], program=cases[k][0]))
         res.traces = len(cases)
         self._cases = cases
